@@ -320,13 +320,19 @@ def c18_catalogue(quick):
         'blank-location': [U(1, links=[2]), U(2, kind='redirect', rto=0, location='\t ', code=302)],
         'fragment-location': [U(1, links=[2]), U(2, kind='redirect', rto=0, location='#top')],
         'query-self-location': [U(1, links=[2]), U(2, kind='redirect', rto=0, location='?')],
+        # 401 and replaying redirects taking turns (each kind of answer alone is bounded; so must be the mix)
+        'auth-redirect-pingpong': [U(1, links=[2]), U(2, kind='script', links=[],
+                                                   seq=['unauthorized', dict(kind='redirect', to=2, code=307)] * 30 + ['page'])],
+        'auth-redirect-pingpong-two': [U(1, links=[2]), U(2, kind='script', links=[],
+                                                       seq=[dict(kind='redirect', to=3, code=308)] * 60),
+                                       U(3, kind='script', links=[], seq=['unauthorized', dict(kind='redirect', to=2, code=307)] * 30 + ['page'])],
         'mixed-307': [U(1, links=[2]), U(2, kind='redirect', rto=3, code=307), U(3, kind='redirect', rto=2, code=308)],
         'flaky': [U(1, links=[2]), U(2, kind='script', seq=['error500', 'drop', 'page'], links=[])],
     }
     for name, urls in loops.items():
         for T in ((1, 2) if quick else (1, 2, 3)):
             for R in ((0, 2) if quick else (0, 1, 2, 5)):
-                for auth in ((0, 1, 2, 3) if name == 'unauthorized' else (0,)):
+                for auth in ((0, 1, 2, 3) if name == 'unauthorized' else ((0, 1) if name.startswith('auth-redirect') else (0,))):
                     out.append(scenario('%s-T%d-R%d-A%d' % (name, T, R, auth), urls,
                                         dict(tries=T, maxredir=R, auth=auth), N=1, benign=0))
     out.append(scenario('error-forever-N2', loops['error-forever'], dict(tries=2), N=2, benign=0))
